@@ -16,8 +16,8 @@ from pvmon.common import MAX_US, MIN_US, US, DAY_US, inst, td_us, wall_us, off_u
 from pvmon.oracle import judge, tzdb
 
 PLAN = {
-    "quick": {"configs": ["ext1", "ext0"], "nshards": 12, "nshards_ext0": 4, "timeout": 900},
-    "thorough": {"configs": ["ext1", "ext0"], "nshards": 16, "timeout": 3000, "suite": ["ext1"]},
+    "quick": {"configs": ["ext1", "ext0"], "nshards": 12, "nshards_ext0": 4, "timeout": 900, "tz": ["UTC", "America/New_York", "Europe/Paris", "Australia/Lord_Howe"]},
+    "thorough": {"configs": ["ext1", "ext0"], "nshards": 16, "timeout": 3000, "suite": ["ext1"], "tz": ["UTC", "America/New_York", "Europe/Paris", "Australia/Lord_Howe"]},
 }
 DECIDING = ["add.exact", "subtract.exact", "td_add.exact", "td_sub.exact", "op.exact", "inverse"]
 FLOORS = {"quick": {"add.exact": 50000, "inverse": 20000, "op.exact": 5000},
@@ -193,6 +193,17 @@ def cases(M):
         c = {"u": u, "tot": tot, "via": r.choice(vias), "ti": -1, "pk": kind, "ak": "rand", "sp": r.randrange(1 << 30)}
         if kind == "naive":
             c["z"] = None
+            ltz = (getattr(M, "spec", None) or {}).get("tz")
+            if ltz and ltz != "UTC" and j % 2:
+                # "shifted on its own clock": the process-local zone (TZ of this shard) must play no role, so half of the
+                # naive starts sit around that zone's transitions, with amounts that cross them or land inside its gaps
+                lz = tzdb.Z.get(ltz)
+                t, ob, oa, _ = lz.trans[r.randrange(len(lz.trans))]
+                c["u"] = (t + r.choice((ob, oa))) * US + r.choice((-3600 * US, -1800 * US, -1, 0, 1, 1800 * US))
+                c["tot"] = r.choice((1, -1, 1800 * US, 3600 * US, -3600 * US, 7200 * US, -7200 * US, 86400 * US, r.randrange(-90000 * US, 90000 * US)))
+                c["pk"] = "naive-local-transition"
+                if not (gen.ok_instant(c["u"]) and gen.ok_instant(c["u"] + c["tot"])):
+                    continue
         elif kind == "fixed":
             c["z"] = r.choice((r.randrange(-86399, 86400), r.randrange(-1439, 1440) * 60))
         else:
